@@ -111,10 +111,20 @@ Pad ==
          [Ev("pad", x, [m |-> m, width |-> width, fill |-> <<fl>>, extend |-> ext, inplace |-> 0], <<r>>, 0)
             EXCEPT !.o = [pyout |-> "ok", py |-> [t |-> "s", v |-> g[1]]]], 0)
 
+\* to_str under the 8 flag combinations; the rendering is a stuttering step of the tables
+Render ==
+  \E x \in Live, opt \in {0, 1}, rs \in {0, 1}, re \in {0, 1} :
+    LET c == ctab[x] fl == <<opt, rs, re>> v == AbsOf(c) IN
+    Do(ctab,
+       [Ev("render", x, [how |-> "to_str", spec |-> << >>, flags |-> fl, drift |-> 0, inplace |-> 0], << >>, 0)
+          EXCEPT !.o = [out |-> CPRender(c.t, c.f, fl),
+                        valid |-> IF \A i \in DOMAIN v.s : \A k \in DOMAIN v.s[i] : ValidG(TextTable[v.s[i][k][2]]) THEN 1 ELSE 0,
+                        parsable |-> IF TabParsable(c.f) THEN 1 ELSE 0]], 0)
+
 Next ==
   /\ depth < MaxDepth
   /\ \/ (Free # {} /\ (New \/ Slice \/ Copy \/ Add \/ Pad))
-     \/ Apply \/ Remove \/ IAdd
+     \/ Apply \/ Remove \/ IAdd \/ Render
 
 Spec == Init /\ [][Next]_cvars
 
